@@ -72,6 +72,9 @@ def gen_cases(tier, seed):
         yield {'family': 'two_positions', 'idx': 10 ** 6 + i, 'seed': seed}
     for i in range(2):
         yield {'family': 'optimized', 'idx': 2 * 10 ** 6 + i, 'seed': seed}
+    # ONE step object used for two packages in which the selected position holds another resource
+    for i in range(4):
+        yield {'family': 'step_object_other_package', 'idx': 3 * 10 ** 6 + i, 'seed': seed}
 
 
 def is_small(v):
@@ -217,7 +220,44 @@ def run_two_positions(case):
                 sample={'config': cfg})
 
 
+def run_other_package(case):
+    d = lab.df()
+    counters = {'cells_checked': 0, 'bad_cells_expected': 0, 'handler_calls': 0}
+    selector = [-1, 0, 1, None][case['idx'] % 4]
+    form = ['set_type', 'validate'][(case['idx'] // 2) % 2] if selector is not None else 'set_type'
+    F = [{'name': 'id', 'type': 'integer'}, {'name': 'v', 'type': 'string'}]
+    tabs = {'x': [{'id': i, 'v': 'bad' if i % 3 == 1 else str(i)} for i in range(6)],
+            'y': [{'id': 10 + i, 'v': 'worse' if i % 2 == 0 else str(i)} for i in range(4)]}
+    kw = {} if selector is None else {'resources': selector}
+    step = d.set_type('v', type='integer', on_error=d.schema_validator.drop, **kw)
+    cfg = {'family': 'step_object_other_package', 'selector': selector if selector is not None else 'default (-1)', 'policy': 'drop'}
+    viol = []
+    for order in (['x', 'y'], ['y', 'x']):
+        out = lab.run([lab.source(n, F, tabs[n]) for n in order] + [step])
+        if not out.ok:
+            viol.append({'kind': 'unexpected_error', 'mech': 'step_object_other_package/failed', 'config': cfg,
+                         'msg': '%r on resources %r: %s' % (cfg, order, out.errstr())})
+            break
+        sel = order[selector if selector is not None else -1]
+        for n, rows in zip(order, out.results):
+            counters['cells_checked'] += len(rows)
+            if n == sel:
+                want = [dict(r, v=int(r['v'])) for r in tabs[n] if r['v'].isdigit()]
+                counters['bad_cells_expected'] += len(tabs[n]) - len(want)
+            else:
+                want = tabs[n]
+            if rows != want:
+                viol.append({'kind': 'rows', 'mech': 'step_object_other_package/rows', 'config': cfg,
+                             'msg': '%r: the step object used on %r (after %r): resource %s came out as %r, the step selects %s there, '
+                             'so %r' % (cfg, order, ['x', 'y'], n, rows[:3], sel, want[:3])})
+                break
+    return dict(nontrivial=True, violations=viol, counters=counters,
+                cov={'type_x_policy': {'step_object_other_package/%s' % selector: 1}}, sample={'config': cfg})
+
+
 def run_case(case):
+    if case['family'] == 'step_object_other_package':
+        return run_other_package(case)
     if case['family'] == 'two_positions':
         return run_two_positions(case)
     if case['family'] == 'optimized':
